@@ -194,14 +194,15 @@ func (i *Injector) marshal(cfg *config.Config) ([]byte, error) {
 	// the sections prometheus needs unchanged are taken as the user wrote them: the marshaller hides
 	// every secret ("<secret>", "xxxxx" for the password of a url) and leaves out values that are
 	// empty or zero although the default is something else (filter_external_labels: false)
-	orig := yaml.MapSlice{}
+	// (decoded into plain maps: a yaml.MapSlice would not get the keys of a merge "<<: *anchor")
+	orig := map[string]interface{}{}
 	if err := yaml.Unmarshal(i.curCfg.RawContent, &orig); err != nil {
 		return nil, errors.Wrapf(err, "unmarshal raw config")
 	}
 	for idx := range root {
 		switch root[idx].Key {
 		case "alerting", "remote_write", "remote_read":
-			if v := yamlChild(orig, root[idx].Key); v != nil {
+			if v := orig[root[idx].Key.(string)]; v != nil {
 				root[idx].Value = v
 			}
 		}
